@@ -1,5 +1,5 @@
 (* C01 — csvdump reproduces every on-disk block, tx, input and output field exactly. Pinned statements only: each theorem is closed by `exact` of a lemma proved in theories/. *)
-From RBP Require Import Bytes Hashes Wire Block BlockP Render Index Model ModelP StoreP CsvP EndToEnd.
+From RBP Require Import Bytes Hashes Wire Block BlockP Render Index Model ModelP StoreP CsvP EndToEnd AddrClean.
 From RBP Require Drive Merkle Utxo Stats OutProto Reader Published Misc.
 
 Theorem C01_compactsize_roundtrip :
@@ -74,6 +74,14 @@ Theorem C01_parsed_counts_consistent :
   forall (c : coin) (size : N) (b : ablock), counts_consistent (eval_block c (parsed_block size b)).
 Proof. exact parsed_block_counts_consistent. Qed.
 
+Theorem C01_address_never_contains_separator :
+  forall (c : coin) (script : bytes) (a : list N), e_addr (eval_script c script) = Some a -> clean a.
+Proof. exact address_clean. Qed.
+
+Theorem C01_tx_out_row_splits_into_its_fields :
+  forall (c : coin) (tid : list N) (i : N) (o : txout), wfb (out_script o) = true -> clean tid -> fields_of_row (out_row tid i (o, eval_script c (out_script o))) = [tid; dec i; dec (out_value o); hex (out_script o); match e_addr (eval_script c (out_script o)) with | Some s => s | None => [] end].
+Proof. exact out_row_fields. Qed.
+
 Print Assumptions C01_compactsize_roundtrip.
 Print Assumptions C01_tx_roundtrip.
 Print Assumptions C01_txid_is_stripped_hash.
@@ -92,3 +100,5 @@ Print Assumptions C01_decimal_field_clean.
 Print Assumptions C01_end_to_end_delivered.
 Print Assumptions C01_end_to_end_csv.
 Print Assumptions C01_parsed_counts_consistent.
+Print Assumptions C01_address_never_contains_separator.
+Print Assumptions C01_tx_out_row_splits_into_its_fields.
